@@ -19,12 +19,14 @@ from dsim.worlds.arrays import Skip, dec_index, gen_label_index, gen_pos_index
 KEYS = ["a", "b", "c", "d"]
 DIMS = ["x", "y", "z", "t"]
 NEW_NAMES = ["p", "q", "r", "s", "m", "n"]
+ODD_DIMS = ["x0", "X", "lat lon", "\u00e9"]              # legal, comma-free, unusual names (8 % of the runs)
+ODD_NEW = ["P q", "Q", "r.1", "\u00df", "xx", "n0"]
 
 
 def dataset_cfg(rng, tier, prop):
     ndims = rng.randint(2, 4)
     dims = DIMS[:ndims]
-    kinds = {d: rng.choice(V.LABEL_KINDS) for d in dims + NEW_NAMES}
+    kinds = {d: rng.choice(V.LABEL_KINDS) for d in dims + NEW_NAMES + DIMS + ODD_DIMS + ODD_NEW}
     mode = rng.choice(["enum", "enum", "random"]) if prop == "C13" else "random"
     if prop == "C15":
         prop = "C14"   # same histories as C14: mutations interleaved with Dataset-wide operations
@@ -39,6 +41,9 @@ def dataset_cfg(rng, tier, prop):
            "align_join": rng.choice(["outer", "outer", "outer", "inner"])}
     if rng.random() < 0.06:
         cfg["max_len"], cfg["max_rank"], cfg["big"] = rng.choice([rng.randint(6, 24)] * 4 + [rng.randint(101, 130)]), min(cfg["max_rank"], 2), True
+    if rng.random() < 0.08:
+        cfg["dim_names"] = ODD_DIMS[:ndims]
+        cfg["odd_names"] = True
     cfg["min_len"] = min(cfg["min_len"], cfg["max_len"])
     if mode == "enum":
         cfg["n_base"] = rng.randint(2, 8)
@@ -178,6 +183,8 @@ class DatasetWorld(object):
                      ("op.reindex", True), ("align.join", cfg.get("align_join", "outer"))):
             dimarray.rcParams[k] = v
         self.cfg = cfg
+        self.new_names = list(ODD_NEW if cfg.get("odd_names") else NEW_NAMES)
+        self.base_names = list(ODD_DIMS if cfg.get("odd_names") else DIMS)
         self.props = set(props)
         self.donors = []      # arrays handed to the dataset (C15: later changes of the dataset must not reach them)
         self.last_dsop = None
@@ -394,7 +401,7 @@ class DatasetWorld(object):
                 if len(new) != len(labs):
                     return self._gen_mutation(rng)
                 items.append([d, new])
-            free = [n for n in NEW_NAMES if n not in dims]
+            free = [n for n in self.new_names if n not in dims]
             if free and rng.random() < 0.4:
                 n = rng.choice(free)
                 items.append([n, V.gen_labels(rng, rng.randint(max(1, self.cfg["min_len"]), self.cfg["max_len"]), self.cfg["dim_kind"].get(n))])
@@ -421,14 +428,14 @@ class DatasetWorld(object):
             return {"op": "rename_keys", "old": old, "new": rng.choice(free), "form": rng.choice(["dict", "fn"])}
         if what == "rename" and len(dims) >= 2 and rng.random() < 0.3:
             # bulk rename through ds.dims = (...): any tuple of distinct names, in particular permutations of the current ones
-            free = [n for n in NEW_NAMES + DIMS if n not in dims]
+            free = [n for n in self.new_names + self.base_names if n not in dims]
             pool_ = list(dims) + free[:2]
             new = rng.sample(pool_, len(dims))
             if new != list(dims):
                 return {"op": "rename_bulk", "old": list(dims), "new": new}
         if what == "rename":
             d = rng.choice(dims)
-            free = [n for n in NEW_NAMES + DIMS if n not in dims]
+            free = [n for n in self.new_names + self.base_names if n not in dims]
             if not free:
                 return self._gen_mutation(rng)
             route = rng.choice(["ax_name", "ax_name_pos", "dims", "set_axis", "rename_axes_dict", "rename_axes_fn",
@@ -493,12 +500,12 @@ class DatasetWorld(object):
             if st["as"] == "axis" and new and not isinstance(new[0], str) and rng.random() < 0.15:
                 st["objdtype"] = True       # numbers held in an object array: still "any label kind"
             if st["as"] == "axis" and rng.random() < 0.25:
-                free = [n for n in NEW_NAMES if n not in dims]
+                free = [n for n in self.new_names if n not in dims]
                 if free:
                     st["newname"] = rng.choice(free)
             return st
         if what == "append_axis":
-            free = [n for n in NEW_NAMES + DIMS if n not in dims]
+            free = [n for n in self.new_names + self.base_names if n not in dims]
             if not free:
                 return self._gen_mutation(rng)
             n = rng.choice(free)
@@ -574,7 +581,7 @@ class DatasetWorld(object):
             if not bad:
                 bad = ["k0"]
         dims, labels = [], []
-        newnames = [n for n in NEW_NAMES + DIMS if n not in existing]
+        newnames = [n for n in self.new_names + self.base_names if n not in existing]
         rng.shuffle(newnames)
         oth = list(t["others"])
         for pos in range(t["k"]):
@@ -688,7 +695,7 @@ class DatasetWorld(object):
             st["fn"] = rng.choice(["add", "sub", "mul", "truediv"])
             st["value"] = rng.choice([2, 0.5, -1])
         elif what == "stack_ds":
-            st["axis"] = rng.choice([n for n in NEW_NAMES if n not in dims] or ["w"])
+            st["axis"] = rng.choice([n for n in self.new_names if n not in dims] or ["w"])
             st["n"] = rng.randint(2, 3)
             st["keys"] = V.gen_labels(rng, st["n"], rng.choice(["int", "str"]))
             st["align"] = rng.random() < 0.4
@@ -1221,7 +1228,7 @@ class DatasetWorld(object):
             if not m.used():
                 raise Skip("empty")
             d = m.used()[0]
-            new = [n for n in NEW_NAMES + ["w1", "w2"] if n not in m.dims][0]
+            new = [n for n in self.new_names + ["w1", "w2"] if n not in m.dims][0]
             ds2 = ds.rename_axes({d: new}, inplace=False)
             m2.rename_dim(d, new)
         else:
